@@ -284,10 +284,14 @@ package cmd
 //@   ensures [wf] {C09} store.wfIndex(index)
 //@   ensures [disk-only] {C09} sameExcept(fs, old(fs), store.indexPath(rootGoitPath))
 
+// restore of one path writes that file and nothing else: no other file is created, changed or removed (directories on
+// the way to it may be created), and on success the file holds the bytes of the staged blob (C09)
 //@ func restoreWorkingDirectory
 //@   returns err
 //@   modifies fs, $rdpos, $hashdata
 //@   requires index != nil && store.wfIndex(index)
+//@   ensures [bytes] {C09} err == nil ==> isFile(fs, absPath(path)) && (exists i int :: 0 <= i && i < len(index.Entries) && string(index.Entries[i].Path) == path && content(fs, absPath(path)) == payloadOf(zlibDec(content(old(fs), object.objPath(rootGoitPath, index.Entries[i].Hash)))))
+//@   ensures [others] {C09} forall q string :: q != absPath(path) ==> ((isFile(old(fs), q) || isFile(fs, q)) ==> fs[q] == old(fs)[q])
 
 //@ func writeTreeObject
 //@   returns o, err
